@@ -412,7 +412,10 @@ type result struct {
 	badCount    map[string]int
 	samples     []interface{}
 	harnessErr  string
+	cut         bool // stopped early: more than maxBadPerTask judged corruptions went undetected
 }
+
+const maxBadPerTask = 1 << 10
 
 func (r *result) addBad(b badCase) {
 	if r.badCount == nil {
@@ -508,7 +511,7 @@ func (w *worker) account(res *result, order, s, b int, P uint64, wire, changed, 
 	c["order"] = orderName[order]
 	c["bit_offset"] = s
 	c["burst_len"] = b
-	c["pattern"] = fmt.Sprintf("%#x", P)
+	c["xor_pattern"] = fmt.Sprintf("%#x", P) // binary numeral, leftmost digit = first bit of the window
 	c["wire"] = wire
 	what := "single-bit flip"
 	if b > 1 {
@@ -589,6 +592,10 @@ func (w *worker) sweep(t *task, res *result) {
 				ch, pass, del := w.evalOne(t.order, s, b, P, t.wire)
 				w.account(res, t.order, s, b, P, t.wire, ch, pass, del)
 			}
+			if res.judged-res.detected > maxBadPerTask {
+				res.cut = true
+				return
+			}
 		}
 	}
 }
@@ -617,7 +624,7 @@ func (w *worker) runRT(t *task, res *result) {
 		}
 		if ci == 0 && t.typ == 0 {
 			res.samples = append(res.samples, map[string]interface{}{"case": c.caseMap("round_trip"), "encoded_payload_bytes": len(c.rx.GetData().GetMsgInfo()),
-				"compressed": c.rx.GetHeader().GetEnableCompress(), "wire_bytes": len(c.wire), "outcome": outcome})
+				"compressed": c.rx.GetHeader().GetEnableCompress(), "outcome": outcome})
 		}
 		n := len(c.rx.GetData().GetMsgInfo())
 		if t.pk.Large || n == 0 {
@@ -727,7 +734,7 @@ func largeList(nbits int) []pat {
 	var out []pat
 	for _, order := range []int{orderLSB, orderMSB} {
 		for s := 0; s < nbits; s++ {
-			if s < 64 || s >= nbits-64 || s%65537 == 0 {
+			if s < 64 || s >= nbits-64 || s%4099 == 0 {
 				out = append(out, pat{order, s, 1, 1})
 			}
 		}
@@ -809,15 +816,17 @@ func RunCodec(rep *core.Report, tier core.Tier) {
 	full := optCombos(true)
 	L := 16
 
-	var tasks []*task
+	// task lists; run order: cheap and diverse first (1 MiB cases, control, round trips), then the sweeps
+	var tasks, tLarge, tCtl []*task
 	// (A) round trips: payload kind x type x option combination (+ short sweeps on every small message)
+	var tRT []*task
 	for _, pk := range payloadKinds {
 		for _, typ := range types {
 			cs := full
 			if pk.Large {
 				cs = fixed
 			}
-			tasks = append(tasks, &task{rt: true, pk: pk, typ: typ, combos: cs, group: "round_trip+short"})
+			tRT = append(tRT, &task{rt: true, pk: pk, typ: typ, combos: cs, group: "round_trip+short"})
 		}
 	}
 	// (B) full burst sweeps: every small payload x every option subset (type fixed), both bit orders
@@ -835,12 +844,12 @@ func RunCodec(rep *core.Report, tier core.Tier) {
 			plain = len(enc)
 		}
 		n := len(c0.rx.GetData().GetMsgInfo())
-		sizes[pk.Name] = map[string]int{"payload_bytes": plain, "encoded_bytes_on_wire(MsgInfo)": n, "envelope_bytes": len(c0.wire)}
+		sizes[pk.Name] = map[string]int{"payload_bytes": plain, "encoded_bytes_on_wire(MsgInfo)": n}
 		if n == 0 {
 			continue
 		}
 		if pk.Large {
-			tasks = append(tasks, &task{ctx: c0, list: largeList(n * 8), group: "large_few"})
+			tLarge = append(tLarge, &task{ctx: c0, list: largeList(n * 8), group: "large_few"})
 			continue
 		}
 		for _, o := range fixed {
@@ -885,8 +894,9 @@ func RunCodec(rep *core.Report, tier core.Tier) {
 				lst = append(lst, pat{orderLSB, s, bitLen(p), p})
 			}
 		}
-		tasks = append(tasks, &task{ctx: ctx40, list: lst, group: "control_generator_multiples"})
+		tCtl = append(tCtl, &task{ctx: ctx40, list: lst, group: "control_generator_multiples"})
 	}
+	tasks = append(append(append(tLarge, tCtl...), tRT...), tasks...)
 
 	results := runTasks(rep, tasks)
 
@@ -899,6 +909,7 @@ func RunCodec(rep *core.Report, tier core.Tier) {
 	completed := true
 	var obsExamples []string
 	undetectedByKey := map[string]int{}
+	cut := 0
 	for i := range results {
 		r := &results[i]
 		t := tasks[i]
@@ -908,6 +919,10 @@ func RunCodec(rep *core.Report, tier core.Tier) {
 		}
 		if r.harnessErr != "" {
 			harnessErr = r.harnessErr
+		}
+		if r.cut {
+			completed = false
+			cut++
 		}
 		g := groups[t.group]
 		if g == nil {
@@ -1023,6 +1038,12 @@ func RunCodec(rep *core.Report, tier core.Tier) {
 	rep.Set("codec.message_types", len(types))
 	rep.Set("codec.option_combinations", map[string]int{"subsets": len(fixed), "with_all_option_values(small payloads)": len(full)})
 	rep.Set("codec.completed", completed)
+	if cut > 0 {
+		rep.Set("codec.tasks_cut_after_many_undetected", cut)
+	}
+	if !completed {
+		rep.Set("exhaustive", false)
+	}
 	bound := fmt.Sprintf("%d payload kinds x %d message types x %d option combinations (16 subsets on the 1 MiB payloads); per small message: all bursts <= 6 bits at every offset + every single-bit flip on the marshalled envelope; per small payload x 16 option subsets x 2 bit orders: all bursts <= %d bits at every offset; 1 MiB payloads: %d chosen flips/bursts",
 		len(payloadKinds), len(types), len(full), L, len(largeList(1<<23)))
 	if tier == core.Thorough {
@@ -1051,7 +1072,7 @@ type codecCase struct {
 	Order    string  `json:"order"`
 	Offset   int     `json:"bit_offset"`
 	BurstLen int     `json:"burst_len"`
-	Pattern  string  `json:"pattern"`
+	Pattern  string  `json:"xor_pattern"`
 	Wire     bool    `json:"wire"`
 	Key      string  `json:"key"`
 }
